@@ -281,16 +281,14 @@ func (p *parser) newContinueStmt(pos plToken.Pos) *ast.Node {
 	})
 }
 
-func (p *parser) newForStmt(initExpr *ast.Node, condExpr *ast.Node, loopExpr *ast.Node, body *ast.BlockStmt) *ast.Node {
-	pos := p.yyParser.lval.item.PositionRange()
-
+func (p *parser) newForStmt(forTk Item, initExpr *ast.Node, condExpr *ast.Node, loopExpr *ast.Node, body *ast.BlockStmt) *ast.Node {
 	return ast.WrapForStmt(&ast.ForStmt{
 		Init: initExpr,
 		Loop: loopExpr,
 		Cond: condExpr,
 		Body: body,
 
-		ForPos: p.posCache.LnCol(pos.Start),
+		ForPos: p.posCache.LnCol(forTk.Pos),
 	})
 }
 
